@@ -160,14 +160,63 @@ func classifyRoot(v ssa.Value, at ssa.Instruction) ErrClass {
 			for _, r := range Returns(ci.Static) {
 				if idx < len(r.Results) {
 					any = true
-					if ClassifyErr(r.Results[idx], r) != ErrNonNil {
-						all = false
+					for _, l := range ErrLeaves(r.Results[idx], r) {
+						if l.Class == ErrNonNil {
+							continue
+						}
+						// pass-through of a parameter: non-nil iff the argument is
+						passed := false
+						if par, ok := l.V.(*ssa.Parameter); ok {
+							for j, pp := range ci.Static.Params {
+								if pp == par && j < len(call.Call.Args) && ClassifyErr(call.Call.Args[j], at) == ErrNonNil {
+									passed = true
+								}
+							}
+						}
+						if !passed {
+							all = false
+						}
 					}
 				}
 			}
 			if any && all {
 				return ErrNonNil
 			}
+		}
+	}
+	// context axiom: after <-ctx.Done() was selected, ctx.Err() != nil
+	if call, ok := v.(*ssa.Call); ok && call.Call.IsInvoke() && call.Call.Method.Name() == "Err" && at != nil &&
+		TypeStr(call.Call.Value.Type()) == "context.Context" {
+		ctxV := call.Call.Value
+		found := false
+		Instrs(at.Parent(), func(in ssa.Instruction) {
+			sel, ok := in.(*ssa.Select)
+			if !ok || found {
+				return
+			}
+			for i, st := range sel.States {
+				dc, ok := st.Chan.(*ssa.Call)
+				if !ok || !dc.Call.IsInvoke() || dc.Call.Method.Name() != "Done" {
+					continue
+				}
+				if !(dc.Call.Value == ctxV || SameVal(dc.Call.Value, ctxV)) {
+					continue
+				}
+				idx := int64(i)
+				if GuardedBy(at, func(f Fact) bool {
+					if f.Op != token.EQL {
+						return false
+					}
+					ex, ok := f.X.(*ssa.Extract)
+					k, isC := ConstInt(f.Y)
+					return ok && ex.Tuple == ssa.Value(sel) && ex.Index == 0 && isC && k == idx
+				}) {
+					found = true
+				}
+			}
+		})
+		if found {
+			return ErrNonNil
 		}
 	}
 	if g, ok := GlobalLoad(v); ok && g != "" {
